@@ -756,6 +756,7 @@ inline std::string classifyCrash(int status, const std::string& err) {
         size_t e = err.find('\n', p);
         return err.substr(p + key.size(), (e == std::string::npos ? err.size() : e) - p - key.size());
     };
+    if (err.find("GCSIM-FATAL: ") != std::string::npos) return lineAfter("GCSIM-FATAL: ");
     if (err.find("ERROR: AddressSanitizer: ") != std::string::npos) {
         std::string l = lineAfter("ERROR: AddressSanitizer: ");
         return "asan:" + l.substr(0, l.find(' '));
